@@ -556,9 +556,12 @@ func flattener(flattenList cty.Value) ([]cty.Value, []cty.ValueMarks, bool) {
 		_, val := it.Element()
 
 		// Any dynamic types could result in more collections that need to be
-		// flattened, so the type cannot be known.
-		if val == cty.DynamicVal {
+		// flattened, so the type cannot be known. (The element might be
+		// marked, so we can't just compare it with cty.DynamicVal.)
+		if !val.IsKnown() && val.Type() == cty.DynamicPseudoType {
 			isKnown = false
+			_, unknownMarks := val.Unmark()
+			markses = append(markses, unknownMarks)
 		}
 
 		if !val.IsNull() && (val.Type().IsListType() || val.Type().IsSetType() || val.Type().IsTupleType()) {
